@@ -10,12 +10,15 @@ import (
 	"github.com/smart-core-os/sc-golang/pkg/trait/electricpb/modepb"
 	"github.com/smart-core-os/sc-golang/pkg/trait/electricpb/segmentpb"
 	"github.com/smart-core-os/sc-golang/verifharness/vcoq"
+	"github.com/smart-core-os/sc-golang/verifharness/vh"
 	"google.golang.org/protobuf/proto"
 	"google.golang.org/protobuf/types/known/durationpb"
 	"google.golang.org/protobuf/types/known/timestamppb"
 )
 
-func init() { register("C18", genC18) }
+func init() { vh.Register("C18", genC18) }
+
+func main() { vh.Main() }
 
 type c18 struct {
 	o *vcoq.Out
@@ -272,7 +275,7 @@ func (g *c18) mode(withStart bool) *traits.ElectricMode {
 }
 
 func tsNanos(t *timestamppb.Timestamp) int64 { return t.Seconds*1000000000 + int64(t.Nanos) }
-func timeOf(n int64) time.Time              { return time.Unix(0, n).UTC() }
+func timeOf(n int64) time.Time               { return time.Unix(0, n).UTC() }
 
 func (g *c18) modeOps(m *traits.ElectricMode, t int64, d time.Duration) {
 	orig := proto.Clone(m).(*traits.ElectricMode)
